@@ -159,6 +159,35 @@ var Probes = []Probe{
 			}
 			return false, ""
 		}},
+	{ID: "O36", Props: []string{"C05"}, Input: "a := [0]; b := immutable(a); a[0] = b; c := freeze(b)", WhatFail: "freeze() of an immutable array/map that contains itself recursed without end (no memo entry for already-immutable containers): the builtin never returned, RunContext hung, eventually fatal stack overflow",
+		Run: func() (bool, string) {
+			type res struct {
+				g map[string]string
+				e string
+				p string
+			}
+			for _, src := range []string{
+				"a := [0]\nb := immutable(a)\na[0] = b\nc := freeze(b)\nout := is_immutable_array(c[0])\n",
+				"m := {}\nim := immutable(m)\nm.self = im\nf := freeze(im)\nout := is_immutable_map(f.self)\n",
+			} {
+				ch := make(chan res, 1)
+				go func() {
+					g, e, p := RunScript(src, 3*time.Second)
+					ch <- res{g, e, p}
+				}()
+				select {
+				case r := <-ch:
+					if r.p != "" || r.e != "" || r.g["out"] != "(b 1)" {
+						return true, "freeze of a self-containing immutable value: " + r.p + r.e + " out=" + r.g["out"]
+					}
+				case <-time.After(6 * time.Second):
+					return true, "freeze of a self-containing immutable value did not return (RunContext hangs)"
+				}
+			}
+			return false, ""
+		}},
+	{ID: "O37", Props: []string{"C01"}, Input: "a := [1,2,3]; d := splice(a, 1, 9223372036854775807)", WhatFail: "splice computed startIdx+delCount, which overflows for a huge delete count: Go panic (slice bounds out of range) instead of deleting to the end",
+		Run: expectGlobal("a := [1, 2, 3]\nd := splice(a, 1, 9223372036854775807)\n", "d", "(a (i 2) (i 3))")},
 	{ID: "O30", Props: []string{"C01", "C02"}, Input: "call with 256 arguments", WhatFail: "the argument count of OpCall is one byte: a call with 256 arguments is compiled as a call with 0 arguments",
 		Run: func() (bool, string) {
 			var ps, as []string
